@@ -149,6 +149,14 @@ func buildEnv(scratch string, engine string) (*built, error) {
 			return nil, err
 		}
 		env.WorkerBin, env.GoRoot, b.sites = res.Bin, res.GoRoot, res.Sites
+		if os.Getenv("VERIF_NO_RACE_LEG") == "" {
+			// the same worker under the race detector: a sample of the scenarios is re-executed with it
+			race, err := buildw.Build(buildw.Options{RepoDir: repo, Scratch: scratch, Cmd: "simworker", Order: true, OSHook: true, Race: true})
+			if err != nil {
+				return nil, err
+			}
+			env.RaceWorkerBin = race.Bin
+		}
 	case "inflsim":
 		res, err := buildw.Build(buildw.Options{RepoDir: repo, Scratch: scratch, Cmd: "inflworker", Sync: true})
 		if err != nil {
@@ -219,8 +227,10 @@ func runCheck(prop, tier string) int {
 		}
 	}
 	c := &sim.CheckCtx{Prop: prop, Tier: tier, Seed: seed, Env: b.env, Par: par, Deadline: time.Now().Add(budget), MaxSims: maxSims,
-		Findings: findings, Out: os.Stdout, ReplayDir: filepath.Join(vd, "replays"), VerifDir: vd}
+		Findings: findings, Out: os.Stdout, ReplayDir: filepath.Join(vd, "replays"), VerifDir: vd,
+		RaceSamples: map[string]int{"quick": 6, "thorough": 150}[tier]}
 	def.explore(c)
+	c.RaceLeg()
 	code := c.Finish(time.Since(start))
 	wall := time.Since(start)
 	comps := gensimComponents
@@ -262,7 +272,10 @@ func runReplay(path string) int {
 	}
 	key := rf.Property + "/" + rf.Oracle + "/" + rf.Class
 	attempts := 5
-	if strings.HasSuffix(rf.Class, "/control") || (rf.Scenario.Infl != nil && rf.Scenario.Infl.Race) {
+	if rf.Class == "data-race" && b.env.RaceWorkerBin != "" && rf.Scenario.Infl == nil {
+		b.env.WorkerBin, b.env.GoMaxProcs, b.env.Timeout = b.env.RaceWorkerBin, 16, 4*b.env.Timeout
+	}
+	if strings.HasSuffix(rf.Class, "/control") || rf.Class == "data-race" || (rf.Scenario.Infl != nil && rf.Scenario.Infl.Race) {
 		// nondeterminism under identical schedules, or the race-detector leg: replays statistically
 		attempts = 20
 	}
